@@ -121,3 +121,42 @@ Proof. reflexivity. Qed.
 Example ex_ok : shielded (LI 1 true false) [] [LI 0 true false] = true /\ first_ok (LI 1 true false) (rev [LI 0 true false; LI 1 true false]) [LI 0 true false] = true
   /\ bootstrap_parents ([LI 0 true false; LI 1 true false] ++ LI 1 true false :: [LI 0 true false]) = [None; Some 0; Some 0; None].
 Proof. repeat split; vm_compute; reflexivity. Qed.
+
+(* A sufficient condition that covers append_to_family's normal case (insert directly after the family): the line
+   directly below the insertion point is an ordinary configuration line that is shallower than the new line -- or
+   there is no line below.  Then (A) and (B) hold, so no existing parent link changes. *)
+Lemma nearest_in done l k : In l done -> cfg l = true -> ind l < k -> nearest done k <> None.
+Proof.
+  induction done as [|d r IH]; intros Hin Hc Hk; [contradiction|]. cbn [nearest].
+  destruct (cfg d && (ind d <? k)) eqn:E; [discriminate|].
+  destruct Hin as [->|Hin]; [|apply IH; assumption].
+  rewrite Hc in E. cbn [andb] in E. apply Nat.ltb_ge in E. lia.
+Qed.
+
+Lemma shielded_by s l0 : cfg l0 = true -> ind l0 < ind s ->
+  forall r done_rev, In l0 done_rev -> shielded s done_rev r = true.
+Proof.
+  intros Hc Hi. induction r as [|m r IH]; intros done_rev Hin; cbn [shielded]; [reflexivity|].
+  apply andb_true_iff. split; [|apply IH; right; exact Hin].
+  destruct ((0 <? ind m) && cfg s && (ind s <? ind m)) eqn:E; [|reflexivity].
+  apply andb_true_iff in E. destruct E as [_ E]. apply Nat.ltb_lt in E.
+  destruct (nearest done_rev (ind m)) eqn:En; [reflexivity|].
+  exfalso. apply (nearest_in done_rev l0 (ind m) Hin Hc); [lia|exact En].
+Qed.
+
+Theorem insert_before_shallower_command pre s suf :
+  match suf with [] => True | l :: _ => cfg l = true /\ cmt l = false /\ ind l < ind s end ->
+  shielded s [] suf = true /\ first_ok s (rev pre) suf = true.
+Proof.
+  destruct suf as [|l r]; [intros _; split; reflexivity|]. intros (Hc & Hm & Hi). split.
+  - cbn [shielded]. apply andb_true_iff. split.
+    + replace (ind s <? ind l) with false by (symmetry; apply Nat.ltb_ge; lia). rewrite andb_false_r. reflexivity.
+    + apply (shielded_by s l Hc Hi). left. reflexivity.
+  - cbn [first_ok]. rewrite Hm. reflexivity.
+Qed.
+
+Corollary insertion_after_family_preserves_parents pre s suf :
+  match suf with [] => True | l :: _ => cfg l = true /\ cmt l = false /\ ind l < ind s end ->
+  spec_parents (pre ++ s :: suf) =
+  spec_parents pre ++ [spec_parent (rev pre) s] ++ map (shift (length pre)) (spec_from (rev pre) suf).
+Proof. intros H. destruct (insert_before_shallower_command pre s suf H) as [A B]. apply insertion_preserves_parents; assumption. Qed.
